@@ -146,6 +146,7 @@ Free(t, k) == R(t, k, {}, {}, << {"free"} >>)
    destination): with the privilege the request may fail for that reason or replace the occupant - not judged;
    without it, nothing may be touched, and there is something to lose. *)
 Occ(t, k, req, e) == [One(t, k, req, e) EXCEPT !.sp = "occupied"]
+Ghost(row) == [row EXCEPT !.sp = "ghost"]
 
 Table == {
   R(101, "board", {20}, {{}}, << {"board.read"} >>),       \* the document lists no privilege for Get Messages
@@ -252,6 +253,21 @@ Table == {
   Occ(208, "file/exists", {4}, "file.move"), Occ(209, "file/exists", {31}, "alias.make"),
   Occ(207, "file.rename/exists", {3}, "file.rename"),
   One(112, "new/chat", {11}, "chat.open"),
+  (* aliases as targets: an alias to a file, an alias to a folder, and a dangling alias (its target is gone).
+     An alias to a file is a file; for an alias to a folder both the folder and the file privilege are accepted;
+     sp = "ghost": the target cannot be resolved - how the request is answered when the privilege is held (and
+     whether it is answered at all) is not judged, but without any of the privileges nothing may change. *)
+  One(204, "aliasfile", {0}, "file.delete"), R(204, "aliasfolder", {6}, {{0}}, << {"folder.delete"} >>),
+  Ghost(R(204, "aliasdangling", {0}, {{6}}, << {"file.delete"} >>)),
+  One(208, "aliasfile", {4}, "file.move"), R(208, "aliasfolder", {8}, {{4}}, << {"folder.move"} >>),
+  Ghost(R(208, "aliasdangling", {4}, {{8}}, << {"file.move"} >>)),
+  One(207, "aliasfile.rename", {3}, "file.rename"), R(207, "aliasfolder.rename", {7}, {{3}}, << {"folder.rename"} >>),
+  One(207, "aliasfile.comment", {28}, "file.comment"), R(207, "aliasfolder.comment", {29}, {{28}}, << {"folder.comment"} >>),
+  Ghost(R(207, "aliasdangling.rename", {3}, {{7}}, << {"file.rename"} >>)),
+  Ghost(R(207, "aliasdangling.comment", {28}, {{29}}, << {"file.comment"} >>)),
+  Free(206, "aliasfile"), Free(206, "aliasfolder"), Ghost(Free(206, "aliasdangling")),
+  One(202, "aliasfile", {2}, "download.file"), Ghost(One(202, "aliasdangling", {2}, "download.file")),
+  One(209, "aliasfile", {31}, "alias.make"), Ghost(One(209, "aliasdangling", {31}, "alias.make")),
   (* news items at depth 2 and 3: a category / a bundle inside a bundle, and one level deeper; requests below them *)
   One(380, "cat2", {35}, "news.cat.delete"), One(380, "bundle2", {37}, "news.bundle.delete"),
   One(380, "cat3", {35}, "news.cat.delete"), One(380, "bundle3", {37}, "news.bundle.delete"),
@@ -431,6 +447,15 @@ Multi(s) ==
             /\ fx' = IF createOK THEN {"acct.create"} ELSE {}
             /\ UNCHANGED <<live, banned>>
 
+(* Open: an account editor (access s.racc, holding Open User 16) opens the account "victim" (access s.S) with Get
+   User (352) and lists the accounts (348); what it is sent is the account's set.  Holding Modify User (17) it saves
+   what it received (353): the account is unchanged. *)
+Open(s) ==
+  /\ accts' = [accts EXCEPT !["req"] = s.racc, !["victim"] = s.S]
+  /\ last' = s /\ rep' = "ok"
+  /\ fx' = {"acct.read"} \cup (IF 17 \in s.racc THEN {"acct.modify"} ELSE {})
+  /\ UNCHANGED <<cap, live, banned, nm>>
+
 Guard(s) ==
   CASE s.op = "handle" -> HasRow(s.t, s.k) /\ s.acc \subseteq Priv /\ s.rd \in {"atomic", "partial"}
     [] s.op = "create" -> s.by \in DOMAIN accts /\ s.want \subseteq Priv /\ s.via \in {349, 350} /\ s.shape \in Shapes
@@ -438,6 +463,7 @@ Guard(s) ==
                           /\ s.third \in {"none", "same", "other"} /\ s.pacc \subseteq Priv /\ s.shared \in BOOLEAN
     [] s.op = "rt"     -> s.S \subseteq Priv
     [] s.op = "upd"    -> s.S \subseteq Priv /\ s.old \subseteq Priv /\ s.via \in {349, 353}
+    [] s.op = "open"   -> s.S \subseteq Priv /\ s.racc \subseteq Priv /\ 16 \in s.racc
     [] s.op = "multi"  -> s.kind \in {"kick", "create"} /\ s.edit \in {349, 353} /\ s.n \in 1..3 /\ s.k \in 1..s.n
                           /\ s.a0 \subseteq Priv /\ s.a1 \subseteq Priv /\ s.ban \in {0, 1, 2} /\ s.via \in {349, 350}
                           /\ s.want \subseteq Priv
@@ -450,6 +476,7 @@ Apply(s) ==
     [] s.op = "rt"     -> Rt(s)
     [] s.op = "upd"    -> Upd(s)
     [] s.op = "multi"  -> Multi(s)
+    [] s.op = "open"   -> Open(s)
 
 (* ---- properties ----------------------------------------------------------- *)
 Actor == IF last.op = "create" THEN last.by ELSE IF last.op = "multi" /\ last.kind = "create" THEN "victim" ELSE "req"
@@ -477,7 +504,7 @@ ProtectedNeverKicked ==
         ((u \in live => u \in live') /\ (u \notin banned => u \notin banned'))]_vars
 
 (* C16 *)
-RoundTrip     == last.op \in {"rt", "upd"} => RoundTripOf(last.S)
-LegacyAgrees  == last.op \in {"rt", "upd"} => LegacyAgreesOf(last.S)
-WireMeansSame == last.op \in {"rt", "upd"} => WireMeansSameOf(last.S)
+RoundTrip     == last.op \in {"rt", "upd", "open"} => RoundTripOf(last.S)
+LegacyAgrees  == last.op \in {"rt", "upd", "open"} => LegacyAgreesOf(last.S)
+WireMeansSame == last.op \in {"rt", "upd", "open"} => WireMeansSameOf(last.S)
 =============================================================================
